@@ -21,6 +21,9 @@ const CONTEXT_SELECTS: &[(&str, &str)] = &[
     ("&file-name", "fn"),
 ];
 
+/// Expressions whose value is the value of the selector inside them.
+const CONTEXT_WRAPPERS: &[&str] = &["{}", "(set \"v\" 1 {})", "(define \"m\" . {})", "(| . {})", "(? true {} 0)", "(set \"v\" {} :v)"];
+
 impl Property for C17 {
     fn id(&self) -> &'static str {
         "C17"
@@ -166,8 +169,12 @@ impl Property for C17 {
                     // a variables stage in front of the selections must not lose the context
                     case.opts.push(vec!["--set".into(), (*rng.pick(&["one=1", "@inc=(+ . 1)", "name=\"N\""])).to_string()]);
                 }
+                // one scenario in four spells the selectors inside expressions that hand their
+                // value through unchanged (the body of a set or define, a pipe, a condition)
+                let wrapped = rng.chance(1, 4);
                 for (sel, name) in CONTEXT_SELECTS {
-                    case.opts.push(vec!["--select".into(), format!("{sel}={name}")]);
+                    let e = if wrapped { rng.pick(CONTEXT_WRAPPERS).replace("{}", sel) } else { (*sel).to_string() };
+                    case.opts.push(vec!["--select".into(), format!("{e}={name}")]);
                 }
                 if rng.chance(1, 3) {
                     case.opts.push(vec!["--only-objects-and-arrays".into()]);
@@ -519,6 +526,17 @@ fn check_files_concat(case: &Case, ctx: &mut Ctx) -> Option<Violation> {
                     args.push(p);
                 }
             }
+            if case.stream().len() % 3 != 1 {
+                // an empty directory among the arguments (first, in between or last) and an
+                // empty sub-directory next to the file inside the directory argument: nothing
+                // to read there, and nothing that ends the reading either
+                let e = format!("{base}/m-empty");
+                let _ = std::fs::create_dir_all(&e);
+                args.insert(case.stream().len() % (args.len() + 1), e);
+                let _ = std::fs::create_dir_all(format!("{base}/a-dir/0-empty"));
+                let _ = std::fs::create_dir_all(format!("{base}/a-dir/zz-empty"));
+                ctx.stats.probe("empty directories among the arguments and inside a directory argument");
+            }
             let mut spec = sim_files_spec(case, &paths, &files, &[]);
             let keep = spec.argv.len() - paths.len();
             spec.argv.truncate(keep);
@@ -682,7 +700,11 @@ fn check_context(case: &Case, ctx: &mut Ctx) -> Option<Violation> {
     // only the seven selectors + optional only-objects + policy are understood here
     let only_obj = has_opt(&case.opts, "--only-objects-and-arrays");
     for o in &case.opts {
-        let ok = (o[0] == "--select" && o.len() == 2 && CONTEXT_SELECTS.iter().any(|(s, n)| o[1] == format!("{s}={n}")))
+        let ok = (o[0] == "--select"
+            && o.len() == 2
+            && CONTEXT_SELECTS
+                .iter()
+                .any(|(s, n)| CONTEXT_WRAPPERS.iter().any(|w| o[1] == format!("{}={n}", w.replace("{}", s)))))
             || o[0] == "--only-objects-and-arrays"
             || (o[0] == "--set" && o.len() == 2)
             || o[0].starts_with("--skip=")
